@@ -74,7 +74,7 @@ def node_wiring(ctx):
              and guard_line < use_line,
              "add_declarations must raise RuntimeError for a parent that is not a NamespaceMixin before it constructs a "
              "BlockNode on it or calls parent.add_declaration (guard at %r, first use at %r)" % (guard_line, use_line),
-             confirm=lambda: ctx.monitor("m_yaml", "search", 1000, ctx.seed))
+             confirm=lambda: ctx.monitor("m_yaml", "search", 1000, ctx.seed), shape=True)
     # (b)
     blk = classes.get("BlockNode")
     init = [m for m in blk.body if isinstance(m, ast.FunctionDef) and m.name == "__init__"][0] if blk else None
@@ -146,8 +146,9 @@ def tokenizer_termination(ctx):
                 spec = ast.literal_eval(n.value)
             except ValueError:
                 spec = None
+    confirm = lambda: ctx.monitor("m_parser", "search", 400, ctx.seed)
     ctx.item("C17/tokenizer/token_specification:literal-table", bool(spec) and len(spec) >= 10,
-             "token_specification is not a literal list of (name, pattern) pairs")
+             "token_specification is not a literal list of (name, pattern) pairs", confirm=confirm, shape=True)
     confirm = lambda: ctx.monitor("m_parser", "search", 400, ctx.seed)
     UNB = sre_c.MAXREPEAT
 
@@ -198,7 +199,7 @@ def tokenizer_termination(ctx):
             ok = tail == ["pos = mo.end()", "mo = get_token(s, pos)"]
             ok = ok and not any(isinstance(x, ast.Continue) for st in loops[0].body for x in ast.walk(st))
     ctx.item("C17/tokenizer/tokenize:loop-advances", ok,
-             "the tokenize loop does not end every iteration with pos = mo.end(); mo = get_token(s, pos)", confirm=confirm)
+             "the tokenize loop does not end every iteration with pos = mo.end(); mo = get_token(s, pos)", confirm=confirm, shape=True)
 
 
 def run(ctx):
